@@ -1,6 +1,8 @@
 # Copyright 2020 National Technology & Engineering Solutions of Sandia, LLC (NTESS).
 # Under the terms of Contract DE-NA0003525 with NTESS, the U.S. Government retains
 # certain rights in this software.
+from numbers import Integral
+
 from jaqalpaq.error import JaqalError
 from .parameter import (
     ParamType,
@@ -270,6 +272,13 @@ class NamedQubit:
         self._alias_index = alias_index
         if alias_index is None or alias_from is None:
             raise JaqalError(f"Invalid map statement constructing qubit {name}.")
+        if not isinstance(alias_from, (Register, AnnotatedValue)):
+            raise JaqalError(f"Cannot take qubit {name} from {alias_from}: not a register.")
+        if not isinstance(alias_index, AnnotatedValue):
+            if isinstance(alias_index, bool) or not isinstance(alias_index, Integral):
+                raise JaqalError(f"Index {alias_index} of qubit {name} is not an integer.")
+            if alias_index < 0:
+                raise JaqalError("Index out of range.")
         if isinstance(alias_index, AnnotatedValue) or isinstance(
             alias_from, AnnotatedValue
         ):
